@@ -17,6 +17,9 @@ from fractions import Fraction
 import numpy as real_np
 import z3
 
+z3.set_param("type_check", False)
+z3.set_param("well_sorted_check", False)
+
 # --------------------------------------------------------------------------------------------
 # polynomial DAG
 
@@ -323,7 +326,7 @@ class Ctx:
         for g in goals:
             vs |= g.varset(self)
         side = self.relevant_side(vs, extra)
-        s = z3.Solver()
+        s = _new_solver()
         s.set("timeout", int(timeout))
         for f in side:
             s.add(f.z3(self))
@@ -1436,3 +1439,17 @@ class SymFloat(float):
 
     def __repr__(self):
         return f"SymFloat({self.sym!r})"
+
+
+_TACTIC = None
+
+
+def _new_solver():
+    """tactic-based solver: assertions are only stored (the default combined solver preprocesses every
+    assertion for its incremental core, which costs ~15 ms per assert on the large shared DAGs here)"""
+    global _TACTIC
+    if _TACTIC is None:
+        import os
+
+        _TACTIC = z3.Tactic(os.environ.get("SX_Z3_TACTIC", "qfnra"))
+    return _TACTIC.solver()
